@@ -530,6 +530,20 @@ func (env *CEnv) evalPol(e *CExpr, flip bool) V {
 	return env.eval(e)
 }
 
+// tryField is field() that reports failure instead of aborting the clause.
+func (env *CEnv) tryField(x V, name string) (v V, ok bool) {
+	defer func() {
+		if r := recover(); r != nil {
+			if _, isC := r.(cerr); isC {
+				ok = false
+				return
+			}
+			panic(r)
+		}
+	}()
+	return env.field(x, name), true
+}
+
 func (env *CEnv) field(x V, name string) V {
 	if x.K == KPtr && x.Typ != nil {
 		if pt, ok := x.Typ.Underlying().(*types.Pointer); ok {
@@ -538,6 +552,20 @@ func (env *CEnv) field(x V, name string) V {
 					if st.Field(i).Name() == name {
 						addr := vPtr(bvadd(x.T, bvLit(uint64(fieldOffset(st, i)), 64)), x.Prov)
 						return env.loadTyped(addr, st.Field(i).Type())
+					}
+				}
+				// promoted fields of embedded structs
+				for i := 0; i < st.NumFields(); i++ {
+					if !st.Field(i).Embedded() {
+						continue
+					}
+					if _, isStruct := st.Field(i).Type().Underlying().(*types.Struct); !isStruct {
+						continue
+					}
+					emb := vPtr(bvadd(x.T, bvLit(uint64(fieldOffset(st, i)), 64)), x.Prov)
+					emb.Typ = types.NewPointer(st.Field(i).Type())
+					if v, ok := env.tryField(emb, name); ok {
+						return v
 					}
 				}
 			}
@@ -576,13 +604,33 @@ func (env *CEnv) field(x V, name string) V {
 			if st, ok := x.Typ.Underlying().(*types.Struct); ok {
 				for i := 0; i < st.NumFields(); i++ {
 					if st.Field(i).Name() == name {
-						return x.Fs[i]
+						f := x.Fs[i]
+						if f.Typ == nil {
+							f.Typ = st.Field(i).Type()
+						}
+						return f
+					}
+				}
+				// promoted fields of embedded structs
+				for i := 0; i < st.NumFields(); i++ {
+					if !st.Field(i).Embedded() || i >= len(x.Fs) {
+						continue
+					}
+					if _, isStruct := st.Field(i).Type().Underlying().(*types.Struct); !isStruct {
+						continue
+					}
+					emb := x.Fs[i]
+					if emb.Typ == nil {
+						emb.Typ = st.Field(i).Type()
+					}
+					if v, ok := env.tryField(emb, name); ok {
+						return v
 					}
 				}
 			}
 		}
 	}
-	cfail("no field %s", name)
+	cfail("no field %s (value kind %d, type %v, %d parts)", name, x.K, x.Typ, len(x.Fs))
 	return V{}
 }
 
@@ -1185,6 +1233,17 @@ func (env *CEnv) call(e *CExpr) V {
 		}
 		var fs []V
 		for i := 1; i < len(e.Args); i++ {
+			if a := e.Args[i]; a.Op == "str" {
+				// a literal for a string field is the program's constant of that content
+				if stt, ok := nt.Underlying().(*types.Struct); ok && i-1 < stt.NumFields() {
+					if b, ok := stt.Field(i - 1).Type().Underlying().(*types.Basic); ok && b.Kind() == types.String {
+						if s, err := strconv.Unquote(a.Tok); err == nil {
+							fs = append(fs, env.st.constString(s))
+							continue
+						}
+					}
+				}
+			}
 			fs = append(fs, arg(i))
 		}
 		inner := V{K: KTuple, Fs: fs, Typ: nt}
